@@ -798,6 +798,39 @@ def rule_kmeans(ctx, m):
     ctx.check(bool(pools) and all(c[1][2] in ('map', 'starmap') for s, c in pools), 'R-ITER', file, 'KMeans.fit', 'pool primitive', 'parallel assignment/averaging must use the order-preserving Pool.map', f.line)
 
 
+def rule_tree_unbounded(ctx, m):
+    """HierarchicalTree records n-1 merges only if the wrapped model merges without a distance bound: its constructor must end with the model in use having
+    max_dist = inf -- set unconditionally, or under a test of THAT model's max_dist (kwargs do not describe a caller-supplied model)."""
+    pm, f = _func(m, 'dtaidistance.clustering.hierarchical', 'HierarchicalTree.__init__')
+    INFS = (('num', float('inf')), ('var', 'inf'), ('attr', ('var', 'math'), 'inf'), ('attr', ('var', 'np'), 'inf'), ('call', ('var', 'float'), (('str', 'inf'),), ()))
+    names = {('attr', ('var', 'self'), '_model')}
+    for s in walk_stmts(f.body):
+        if s.k == 'assign' and s.target == ('attr', ('var', 'self'), '_model') and s.value[0] == 'var':
+            names.add(s.value)
+    sites = []
+
+    def visit(stmts, conds):
+        for s in stmts:
+            if s.k == 'if':
+                visit(s.then, conds + [s.cond])
+                visit(s.els, conds + [('un', 'not', s.cond)])
+            elif s.k == 'assign' and s.target[0] == 'attr' and s.target[2] == 'max_dist' and s.target[1] in names:
+                sites.append((s, conds))
+            else:
+                for b in sub_blocks(s):
+                    visit(b, conds)
+    visit(f.body, [])
+    if not sites:
+        ctx.violation('R-PATH', pm.path, 'HierarchicalTree.__init__', 'unbounded model', 'the tree variant never lifts the distance bound of its model (no `model.max_dist = inf`)', f.line)
+        return
+    for s, conds in sites:
+        ok_val = s.value in INFS
+        on_model = all(any(x[0] == 'attr' and x[2] == 'max_dist' and x[1] in names for x in walk_expr(c)) for c in conds)
+        ctx.check(ok_val and on_model, 'R-PATH', pm.path, 'HierarchicalTree.__init__', 'unbounded model',
+                  'the bound of the model in use must become infinite whenever it is finite: the reset `%s = %s` is decided by %s, which does not look at that model\'s max_dist '
+                  '(a caller-supplied model keeps its finite bound; the tree then records fewer than n-1 merges)' % (fmt(s.target), fmt(s.value), [fmt(c)[:60] for c in conds]), s.line)
+
+
 # ================================================================================================= C17
 class _Undecidable(Exception):
     pass
